@@ -16,7 +16,7 @@ ASSUMPTIONS = ["oracle: brute force over all K^T sequences (K^T<=60000) else an 
                "tolerance 4(T+2)eps(sum_i max_k|C_ik| + sum beta); 0 for integer-valued tables"]
 SHARD_TIMEOUT = {"quick": 600, "thorough": 3000}
 
-CLASSES = ["gauss", "smallint", "allequal", "mixedmag", "negative", "stayjump_tie", "T1", "K1", "dyadic", "huge_spread"]
+CLASSES = ["gauss", "smallint", "allequal", "mixedmag", "negative", "stayjump_tie", "T1", "K1", "dyadic", "huge_spread"]   # + "large K" (K in {257..1100}) drawn separately
 BETA_FORMS = ["float", "int", "np.float64", "zero", "vector_rand", "vector_zeros", "vector_onezero", "vector_big", "big_scalar",
               "np.float32", "np.int64", "vector_int", "vector_f32"]
 LAYOUTS = ["C", "F", "strided", "readonly"]
@@ -206,6 +206,10 @@ def run_random(spec, res, kernel):
             T, K, cls2 = 1, int(rng.integers(1, 6)), "gauss"
         elif cls == "K1":
             T, K, cls2 = int(rng.integers(1, 12)), 1, "gauss"
+        elif u < 0.03:
+            # many clusters: labels beyond 255 / 65535-safe storage of back-pointers
+            T, K, cls2 = int(rng.integers(2, 14)), int(rng.choice([257, 300, 700, 1100])), "gauss"
+            res.count("large_K_cases")
         elif u < 0.55:
             K = int(rng.integers(2, 5))
             T = int(rng.integers(2, max(3, int(np.log(60000) / np.log(K)) + 1)))
@@ -268,6 +272,8 @@ def replay(case, res):
 def finalize(merged, tier):
     out = {"inconclusive": []}
     c = merged["counters"]
+    if c.get("large_K_cases", 0) < 20:
+        out["inconclusive"].append("only %d cases with more than 256 clusters" % c.get("large_K_cases", 0))
     if c.get("brute_forced", 0) < 500:
         out["inconclusive"].append("brute-force oracle decided only %d cases" % c.get("brute_forced", 0))
     out["exhaustive_subspace"] = "T<=3,K<=3, entries and betas in {0,1,2}: enumerated completely (interpreted kernel)"
